@@ -843,6 +843,7 @@ class CondNotifyAll(CondUnit):
 
 class CondWait(CondUnit):
     method = "wait"
+    split = (2, 2, 2)
     contract = Contract(
         "Condition.wait",
         requires=lambda h, a: [],
